@@ -2,6 +2,7 @@ package main
 
 import (
 	"fmt"
+	"go/types"
 	"os"
 	"path/filepath"
 	"sort"
@@ -292,4 +293,44 @@ func (e *Engine) collectRefs(st *State, v Value, target int, seen map[int]bool, 
 			e.collectRefs(st, x, target, seen, out)
 		}
 	}
+}
+
+// stubField reads a field of the receiver (first argument) of a recorded stub call, by name.
+func (e *Engine) stubField(st *State, _ *ssa.Function, rec stubRec, field string) Value {
+	if len(rec.args) == 0 {
+		panic("stub call without receiver")
+	}
+	var sv StructV
+	var stt *types.Struct
+	callee := e.lookupFn(rec.name)
+	if callee == nil || callee.Signature.Recv() == nil {
+		panic("cannot resolve stub " + rec.name)
+	}
+	rt := callee.Signature.Recv().Type()
+	switch a := rec.args[0].(type) {
+	case StructV:
+		sv = a
+		stt = rt.Underlying().(*types.Struct)
+	case PtrV:
+		sv = e.load(st, a, nil).(StructV)
+		stt = rt.Underlying().(*types.Pointer).Elem().Underlying().(*types.Struct)
+	default:
+		panic("unexpected stub receiver")
+	}
+	for i := 0; i < stt.NumFields(); i++ {
+		if stt.Field(i).Name() == field {
+			return sv.Fields[i]
+		}
+	}
+	panic("no field " + field + " in receiver of " + rec.name)
+}
+
+func (e *Engine) lookupFn(name string) *ssa.Function {
+	if e.fnByName == nil {
+		e.fnByName = map[string]*ssa.Function{}
+	}
+	if f, ok := e.fnByName[name]; ok {
+		return f
+	}
+	return nil
 }
